@@ -13,8 +13,13 @@ FAMILY = family("C05", [
              max_scenarios=4000),
     ModelCfg("c05-n2o3e2", consts(2, 3, 2, OPS, cleanups="{0, 1}"), tiers=("quick",), check=False,
              simulate=2000),
-    ModelCfg("c05-n1o4e1-dl", consts(1, 4, 1, OPSD, deadlines="{1, 99}", delays="{1, 2}"),
-             tiers=("quick",), check=False, simulate=1000),
+    ModelCfg("c05-n1o4e1-dl", consts(1, 4, 1, OPSD, deadlines="{1, 99}", delays="{1, 2}",
+                                     via_setter="{0, 1}"),
+             tiers=("quick",), check=False, simulate=1500),
+    # a deadline assigned before entering / a sleep that outlives the scope: timers must not leak
+    ModelCfg("c05-n1o3e0-setter", consts(1, 3, 0, '{"open", "close", "sleep", "yield"}',
+                                         deadlines="{1, 2, 99}", delays="{1, 2}", env="{}",
+                                         via_setter="{0, 1}"), emit=True, check=False, max_scenarios=3000),
     ModelCfg("c05-n2o4e2", consts(2, 4, 2, OPS, depth=4, cleanups="{0, 1}", pres="{0, 1}"),
              tiers=("thorough",), check=False, simulate=12000, sim_depth=600),
     ModelCfg("c05-n2o3e2x", consts(2, 3, 2, OPS, cleanups="{0, 1}"), tiers=("thorough",), simulate=4000),
